@@ -144,8 +144,9 @@ class C19(CheckBase):
             w.settle(3.0)
         finished, exc = w.stop_provider_guarded(plan['send_end'])
         if not finished:
-            ctx.violation('C19.shutdown', 'stop_all-does-not-return', 'SdcProvider.stop_all() did not return within 120 virtual '
-                                                                      'seconds:\n' + s.stacks(limit=8)[-3000:])
+            # a shutdown that hangs is a liveness defect, but not a statement of C19 (C08 owns that oracle): do not
+            # raise it here, only count it
+            ctx.probe('stop_all_did_not_return')
         s.sleep(0.5)
         with s.no_preempt():
             self._judge(ctx, w, cell, p_cont, c_cont, c)
